@@ -1,4 +1,5 @@
 import Driver.Stream
+import Obao.Model.WrapNs
 import Obao.Model.UseCount
 /-!
 Trace validation for C19 (stream `usecount`) and C18 (stream `wrapuse`): the harness reports the OBSERVED schedule —
@@ -237,7 +238,16 @@ def stepD (st : DSt) (fs : List String) : DSt × String :=
   -- request that the unwrap executes): the first unwrap spends it, every later attempt and lookup finds nothing
   -- (`C18.unwrap_at_most_once` over the use-count model with n = 1)
   | ["cgunwrap"] => (st, "approve:ok|first:ok:v1|second:err|third:err|lookup:err|value:kept")
-  | ["xns", _dir] => (st, "first:ok+payload/second:refused/token:gone/payload:0/wrapinfo:0")
+  | ["xns", dir] =>
+    -- third-party unwrap across namespaces on the model `Obao.WrapNs` (namespace 0 = root, 1 = the child namespace)
+    let (tokNs, reqNs) := if dir == "down" then (0, 1) else if dir == "same" then (1, 1) else (1, 0)
+    let s0 : Obao.WrapNs.St := { toks := [(tokNs, 7)], payloads := [(tokNs, 7)] }
+    let r1 := Obao.WrapNs.unwrap3 s0 reqNs tokNs 7
+    let r2 := Obao.WrapNs.unwrap3 r1.1 reqNs tokNs 7
+    let sh := fun (b : Bool) => if b then "ok+payload" else "refused"
+    let tok := if r2.1.toks.contains (tokNs, 7) then "present" else "gone"
+    let n := if r2.1.payloads.contains (tokNs, 7) then 1 else 0
+    (st, s!"first:{sh r1.2}/second:{sh r2.2}/token:{tok}/payload:{n}/wrapinfo:{n}")
   | ["cgstanza"] => (st, "first:data|second:err")
   | ["hist", path, ttl] =>
     -- a response wrapped for a request on `path`: what the requester's wrap_info says
